@@ -221,7 +221,7 @@ def run_history(cfg, ops):
                 spare.append(cand)
                 cand = cls(2)
             objs[2] = cand
-            del spare
+            cand = spare = None           # objs[2] must be the only reference
             r = [["ok"]]
         elif op == "dirty":
             get(0).dirty()
